@@ -105,7 +105,7 @@ structure Env (W HS : Type) where
 
 variable {W HS : Type}
 
-abbrev M (W HS α : Type) := St W HS → Res α × St W HS
+def M (W HS α : Type) := St W HS → Res α × St W HS
 
 @[inline] def M.pure {α} (a : α) : M W HS α := fun st => (.ok a, st)
 @[inline] def M.bind {α β} (m : M W HS α) (f : α → M W HS β) : M W HS β := fun st =>
@@ -173,10 +173,13 @@ def hookMetas (env : Env W HS) (ann : Option Ann) : List String → M W HS Unit
 
 /-- after Python has bound `x` itself (unpacking, loop target, import, …): the handler sees the value
     and the name is bound again to what it answers -/
-def postBind1 (env : Env W HS) (x : String) : M W HS Unit := do
-  let v ← lookup env x
-  let r ← hook env x none v
-  setLoc x (some r)
+def postBind1 (env : Env W HS) (x : String) : M W HS Unit :=
+  match env.hk with
+  | none => pure ()
+  | some _ => do
+    let v ← lookup env x
+    let r ← hook env x none v
+    setLoc x (some r)
 
 def postBind (env : Env W HS) : List String → M W HS Unit
   | [] => pure ()
